@@ -655,7 +655,7 @@ def main(ctx, replay):
     rng = random.Random(ctx.seed)
     info = C.prologue(ctx)
     if info["hbin"] is None:
-        raise RuntimeError("harness build failed:\n" + info.get("go_log", ""))
+        raise C.HarnessBuildFailed(info.get("go_log", ""))
     cov = C.proof_coverage(info, "C08")
     assumptions = [
         "net/http request parsing, url decoding and path.Clean are Go library behaviour: the model is fed the request as the handler receives it (recorded by a pass-through wrapper), path.Clean / CanonicalHeaderKey twins are compared with Go on the generated inputs",
